@@ -214,11 +214,23 @@ def write_depfile(env, path, output, seen_dirs, makeify=False):
         roots[Root.builddir] = None
 
         out = Writer(f, None)
+        if makeify:
+            def write_dep(s):
+                out.write(s, Syntax.dependency)
+        else:
+            # Ninja's depfile parser only understands a few escapes (space,
+            # '#' and '$'); anything else Make would want escaped has to be
+            # written as-is, or Ninja looks for a file with a backslash in
+            # its name and regenerates forever.
+            def write_dep(s):
+                out.write_literal(re.sub(r'([ #])', r'\\\1',
+                                         s.replace('$', '$$')))
+
         out.write(output.string(roots), Syntax.target)
         out.write_literal(':')
         for i in seen_dirs:
             out.write_literal(' ')
-            out.write(i.string(roots), Syntax.dependency)
+            write_dep(i.string(roots))
         out.write_literal('\n')
         if makeify:
             for i in seen_dirs:
